@@ -168,8 +168,16 @@ func mutations() []mutation {
 		{"finalizers.Add", func(h *held) { h.md.Finalizers().Add("ADDED-by-" + h.name) }},
 		{"finalizers.Remove(first)", func(h *held) { h.md.Finalizers().Remove("f1") }},
 		{"finalizers.Remove(last)", func(h *held) { h.md.Finalizers().Remove("f2") }},
+		{"finalizers.Remove(the last element)", func(h *held) {
+			if f := *h.md.Finalizers(); len(f) > 0 {
+				h.md.Finalizers().Remove(f[len(f)-1])
+			}
+		}},
+		{"finalizers.Remove(absent)", func(h *held) { h.md.Finalizers().Remove("never-there") }},
 		{"finalizers.Set", func(h *held) { h.md.Finalizers().Set(resource.Finalizers{"S"}) }},
-		{"finalizers element write", func(h *held) {
+		// (not part of the rotating finalizer group: writing an element of the slice in place is not the copy-on-write
+		// API; it stays behind the API mutations, which have given the holder its own storage by then)
+		{"element write into the holder's own finalizers slice", func(h *held) {
 			if f := *h.md.Finalizers(); len(f) > 0 {
 				f[0] = "WRITTEN"
 			}
@@ -231,7 +239,32 @@ func storeSnapshot(ctx context.Context, st state.CoreState, kind resource.Kind, 
 // ops of the API alphabet
 var apiOps = []string{"create-b", "update-a", "update-a(emptied)", "modify-a", "modify-c(new)", "uwc-a", "get-a", "list", "list-label", "list-id", "watch-a", "watchkind", "copy-md"}
 
-func runSequence(x *explore.X, fl string, seq []string) int {
+// nVariants orders of the mutation list: mutations accumulate on a holder, so only the first mutation of a group
+// (labels, annotations, finalizers) meets storage that is still shared with the store and the other holders; variant
+// v rotates every group by v, so that every mutation of a group is the first one in some variant.
+const nVariants = 6
+
+func mutationsFor(v int) []mutation {
+	ms := mutations()
+	for _, pre := range []string{"labels.", "annotations.", "finalizers"} {
+		var idx []int
+		for i, m := range ms {
+			if strings.HasPrefix(m.name, pre) {
+				idx = append(idx, i)
+			}
+		}
+		group := make([]mutation, len(idx))
+		for j, i := range idx {
+			group[j] = ms[i]
+		}
+		for j, i := range idx {
+			ms[i] = group[(j+v)%len(idx)]
+		}
+	}
+	return ms
+}
+
+func runSequence(x *explore.X, fl string, seq []string, variant int) int {
 	useSlice := fl != "remote"
 	var kind resource.Kind = resource.NewMetadata(hx.NS, conformance.IntResourceType, "", resource.VersionUndefined)
 	mk := func(id string) resource.Resource { return newInt(id) }
@@ -411,7 +444,7 @@ func runSequence(x *explore.X, fl string, seq []string) int {
 			if h.readOnly {
 				continue
 			}
-			for _, m := range mutations() {
+			for _, m := range mutationsFor(variant) {
 				if h.res == nil && m.name == "spec write" {
 					continue
 				}
@@ -474,14 +507,20 @@ func runSequence(x *explore.X, fl string, seq []string) int {
 func scenario(fl string, first string, maxLen int) explore.Scenario {
 	return explore.Scenario{
 		Name:       fmt.Sprintf("%s/first=%s/len<=%d", fl, first, maxLen),
-		Desc:       fmt.Sprintf("all API sequences of <= %d calls starting with %s (%s flavour) that hand objects to / obtain objects from the state (Create/Update/Modify/UpdateWithConflicts args, callback args and results, Get/List results, watch event resources and old values, metadata copies); then every held object is mutated with each of 18 public mutations and the store (Get + List, via backend and via the flavour) and all other held objects must be unchanged", maxLen, first, fl),
+		Desc:       fmt.Sprintf("all API sequences of <= %d calls starting with %s (%s flavour) that hand objects to / obtain objects from the state (Create/Update/Modify/UpdateWithConflicts args, callback args and results, Get/List results, watch event resources and old values, metadata copies); then every held object is mutated with each of %d public mutations (in 6 orders: every mutation of the label, annotation and finalizer groups comes first in one of them) and the store (Get + List, via backend and via the flavour) and all other held objects must be unchanged", maxLen, first, fl, len(mutations())),
 		Sequential: true,
 		Body: func(x *explore.X) {
 			n, steps := 0, 0
 			var rec func(seq []string)
 			rec = func(seq []string) {
-				steps += runSequence(x, fl, seq)
-				n++
+				// every order of the mutation groups for the short sequences, the first order for the longest ones
+				for v := 0; v < nVariants; v++ {
+					if v > 0 && len(seq) > 3 {
+						break
+					}
+					steps += runSequence(x, fl, seq, v)
+					n++
+				}
 				if len(seq) == maxLen || x.Failed() {
 					return
 				}
